@@ -37,6 +37,43 @@ def native(name, conc, notes):
             "reproduced": bad, "detail": f"real objects: {out}"}
 
 
+def native_regrouped(name, conc, notes):
+    """real devices that were in a group before are put into a new group with
+    other devices; every variable must have bytes of its own in the new array"""
+    from ebpfcat.ebpfcat import Device, DeviceVar, ProcessSyncGroup
+
+    class Axis(Device):
+        position = DeviceVar("i")
+        target = DeviceVar("h", write=True)
+        status = DeviceVar("B")
+
+    class Gripper(Device):
+        force = DeviceVar("I", write=True)
+        width = DeviceVar("H")
+
+    class EC:
+        pass
+    a, b, c, d = Axis(), Gripper(), Axis(), Gripper()
+    try:
+        ProcessSyncGroup(EC(), [a, b, c])
+        g = ProcessSyncGroup(EC(), [b, c, d, a])
+    except Exception as e:      # noqa
+        return {"inputs": "two groups over shared devices", "reproduced": True,
+                "detail": f"constructing the groups raised {type(e).__name__}: {e}"}
+    size = {"i": 4, "h": 2, "B": 1, "I": 4, "H": 2}
+    spans = []
+    for k, dev in enumerate((b, c, d, a)):
+        for n in dir(type(dev)):
+            v = getattr(type(dev), n, None)
+            if isinstance(v, DeviceVar):
+                spans.append((dev.__dict__[n], dev.__dict__[n] + size[v.fmt], f"device{k}.{n}"))
+    spans.sort()
+    overlaps = [(x[2], y[2]) for x, y in zip(spans, spans[1:]) if y[0] < x[1]]
+    return {"inputs": "ProcessSyncGroup(ec, [a, b, c]); then ProcessSyncGroup(ec, [b, c, d, a])",
+            "reproduced": bool(overlaps),
+            "detail": f"real objects, byte ranges in the second group's array: {spans}; overlapping: {overlaps}"}
+
+
 def run(tier, seed):
     from contracts import c29_process as S
     rep = R.Report("C29", tier, seed)
@@ -56,6 +93,7 @@ def run(tier, seed):
     api.REGISTRY["ebpfcat.ebpfcat:ProcessSyncGroup.get_array"] = S.GetArray()
     try:
         api.verify(S.init_contract(), rep, replay=native)
+        api.verify(S.init_contract(stale=True), rep, replay=native_regrouped)
     finally:
         api.REGISTRY.clear()
         api.REGISTRY.update(saved)
